@@ -11,13 +11,26 @@ def gen_cbf(rng):
     est, fpr = rng.choice([(1, 0.5), (1, 0.3), (2, 0.3), (3, 0.1), (5, 0.05), (20, 0.01)])
     keys = ["k%d" % i for i in range(rng.randint(1, 8))]
     ops = [(rng.choice(["add", "add", "rem", "undo", "absent"]), rng.choice(keys), rng.choice([1, 1, 2, 3, 9])) for _ in range(rng.randint(1, 30))]
-    return {"kind": "cbf", "est": est, "fpr": fpr, "keys": keys, "ops": ops}
+    # a user-supplied strategy may return any Python ints (negative ones included): position = hash mod size
+    signed = rng.random() < 0.3
+    return {"kind": "cbf", "est": est, "fpr": fpr, "keys": keys, "ops": ops, "signed": signed}
+
+
+def signed_strategy(key, depth=1):
+    import hashlib
+
+    data = key.encode("utf-8") if isinstance(key, str) else bytes(key)
+    out = []
+    for i in range(depth):
+        d = hashlib.sha256(bytes([i]) + data).digest()
+        out.append(int.from_bytes(d[:8], "big", signed=True))
+    return out
 
 
 def check_cbf(case):
     from probables import CountingBloomFilter
 
-    c = CountingBloomFilter(est_elements=case["est"], false_positive_rate=case["fpr"])
+    c = CountingBloomFilter(est_elements=case["est"], false_positive_rate=case["fpr"], hash_function=signed_strategy if case.get("signed") else None)
     cnt = {}
     for step, (kind, key, n) in enumerate(case["ops"]):
         if kind == "add":
